@@ -389,7 +389,7 @@ def iterate(h, nt=2, wq=2, wu=1, with_none=True):
 
 
 def cases(tier, seed):
-    T = 45 if tier == "quick" else 1500
+    T = 120 if tier == "quick" else 1500
     maxpts = 5 if tier == "quick" else 16
     cs = []
     groups, errors = solvers_by_law()
@@ -401,7 +401,7 @@ def cases(tier, seed):
             other += 1
             label = f"B{other}"
         for clause in ("short", "over"):
-            cs.append(Case(f"grid/law{label}/{clause}", grid, dict(key=key, clause=clause, maxpts=maxpts), timeout=T, hard=T * 12,
+            cs.append(Case(f"grid/law{label}/{clause}", grid, dict(key=key, clause=clause, maxpts=maxpts), timeout=T, hard=T * 8,
                            sentinel=False, pin_tries=0, crosscheck=False))
     for sv, why in sorted(errors.items()):
         for cls in ("low", "high", "exact"):
